@@ -52,8 +52,9 @@ def small_base(rng, k, full_layout=True):
         fee = [U // 1000, 0, 1][(k + i) % 3]
         d = {"ts": [t2 + i * 1_000_000, off], "from_exch": 0, "from_holder": 0, "to_exch": 1, "to_holder": 1 if rng.chance(50) else 0,
              "spot": 120 * U, "crypto_sent": U // 5, "crypto_received": U // 5 - fee}
-        if fee == 0 and rng.chance(60):
-            d["spot"] = None if rng.chance(50) else 0
+        if fee == 0:
+            # fee-less transfers: empty, zero and supplied spot price all occur in every run (k, i rotate)
+            d["spot"] = [None, 0, 120 * U][(k // 3 + k + i) % 3]
         intras.append(d)
     case = {"asset": "B1", "exchanges": ["E0", "E1"], "holders": ["H0", "H1"], "ins": ins, "outs": outs, "intras": intras}
     lay = l1.gen_layout(rng, compact=rng.chance(30))
@@ -243,14 +244,12 @@ def faults_of(base, rng, exhaustive_types=True):
         block = [list(r) for r in base["rows"][st["kw"]:st["end"] + 1]]
         empty_block = [list(r) for r in base["rows"][st["kw"]:st["hdr"] + 1]] + [list(base["rows"][st["end"]])]
         for pos in outside:
-            # an identical copy before or after the table: the later one repeats the type.  The implementation only notices when
-            # the earlier table of that type has data rows (finding F11)
-            add("repeated-table", f"{t}@{pos}", [("insrows", pos, block)],
-                known=None if st["data"] else "repeated-table-after-empty-table")
+            # an identical copy before or after the table: the later one repeats the type -- also when the earlier table of that
+            # type has no data rows (the shape of finding F11, repaired: see corpus/C12/f11-repeated-table-after-empty.json)
+            add("repeated-table", f"{t}@{pos}", [("insrows", pos, block)], first_empty=not st["data"])
             if st["data"]:
-                # an empty copy: after the table it repeats a non-empty table; before it, the earlier table is the empty one (F11 shape)
-                add("repeated-table", f"{t}@{pos}:empty-copy", [("insrows", pos, empty_block)],
-                    known="repeated-table-after-empty-table" if pos <= st["kw"] else None)
+                # an empty copy: after the table it repeats a non-empty table; before it, the earlier table is the empty one
+                add("repeated-table", f"{t}@{pos}:empty-copy", [("insrows", pos, empty_block)], first_empty=pos <= st["kw"])
     for pos in outside:
         add("data-outside-table", f"@{pos}:row", [("insrows", pos, [datarow])])
         add("data-outside-table", f"@{pos}:TABLE END", [("insrows", pos, [["TABLE END"]])])
